@@ -4,6 +4,7 @@
    by comparing it with these (byte equality / two-way interop).  The theorems
    here are the structural facts about the constructions themselves. *)
 From Rpgp Require Import Base.Octets Base.Res Sym.Cfb Sym.CfbProofs Aead.Seipd2 Aead.Seipd2Proofs Kdf.Kdf Kdf.KdfProofs.
+From Rpgp Require Import Io.Emitter Sym.Seipd1EncMachine Sym.Seipd1EncMachineProofs.
 
 (* coded S2K count: shift form of the code = arithmetic form, all 256 values *)
 Theorem C12_count_decode :
@@ -70,4 +71,25 @@ Example C12_ex_kw :
   kw_unwrap (fun b => b) (match kw_wrap (fun b => b) (repeat x07 16) with Ok c => c | _ => [] end) = Ok (repeat x07 16).
 Proof. vm_compute. reflexivity. Qed.
 Example C12_ex_pad : ecdh_pad (repeat x01 19) = repeat x01 19 ++ repeat x05 5.
+Proof. vm_compute. reflexivity. Qed.
+
+(* the SEIPD v1 stream encryptor as the staged producer the code is (octet-wise BufEncryptor; encrypted
+   prefix, 8192-octet buffers hashed and encrypted, encrypted MDC packet; read() with any request sizes):
+   what the consumer receives is the RFC construction seipd1_enc, followed by a clean end *)
+Theorem C12_v1_bufencryptor_is_cfb :
+  forall E bs, 1 <= bs -> (forall x, lenN (E x) = bs) ->
+    forall iv p, snd (be_run E bs (be_init E iv) p) = cfb_enc E bs iv p.
+Proof. exact be_run_is_cfb_enc. Qed.
+Print Assumptions C12_v1_bufencryptor_is_cfb.
+
+Theorem C12_v1_stream_encryptor_machine_is_spec :
+  forall E bs sha1, 1 <= bs -> (forall x, lenN (E x) = bs) ->
+    forall (req : N -> N) prefix data,
+      enc_run E bs sha1 req prefix data = (seipd1_enc E bs sha1 prefix data, EClean).
+Proof. exact enc_machine_is_spec. Qed.
+Print Assumptions C12_v1_stream_encryptor_machine_is_spec.
+
+Example C12_ex_v1_enc_machine :
+  enc_run (fun x => repeat x5a 8) 8 (fun x => repeat x11 20) (fun i => 1 + i mod 4) (repeat x07 10) [x61; x62; x63] =
+  (seipd1_enc (fun x => repeat x5a 8) 8 (fun x => repeat x11 20) (repeat x07 10) [x61; x62; x63], EClean).
 Proof. vm_compute. reflexivity. Qed.
